@@ -115,6 +115,35 @@ pub fn poisoned_bytes() -> u64 {
     POISONED_BYTES.load(Ordering::Relaxed)
 }
 
+thread_local! {
+    static CENSUS: RefCell<Option<std::collections::BTreeMap<(&'static str, &'static str), u64>>> = const { RefCell::new(None) };
+}
+
+/// Start (or stop) counting, on this thread, the objects relocated by collections and copied by
+/// freezes, per Starlark type name (reach measurement for a simulator's workload).
+pub fn census_enable(on: bool) {
+    CENSUS.with(|c| *c.borrow_mut() = if on { Some(Default::default()) } else { None });
+}
+
+/// Take the counts gathered so far: (what, type name, count).
+pub fn census_take() -> Vec<(&'static str, &'static str, u64)> {
+    CENSUS.with(|c| match c.borrow_mut().as_mut() {
+        None => Vec::new(),
+        Some(m) => std::mem::take(m).into_iter().map(|((a, b), n)| (a, b, n)).collect(),
+    })
+}
+
+#[inline]
+pub(crate) fn census(what: &'static str, type_name: &'static str) {
+    let _ = CENSUS.try_with(|c| {
+        if let Ok(mut c) = c.try_borrow_mut() {
+            if let Some(m) = c.as_mut() {
+                *m.entry((what, type_name)).or_insert(0) += 1;
+            }
+        }
+    });
+}
+
 /// Sites at which a simulated scheduler may switch threads.
 #[derive(Copy, Clone, Debug, PartialEq, Eq, Hash, PartialOrd, Ord)]
 #[repr(u32)]
